@@ -9,6 +9,8 @@ import (
 	"encoding/json"
 	"fmt"
 	"reflect"
+	"sort"
+	"strings"
 	"runtime"
 	"sync"
 	"time"
@@ -357,6 +359,33 @@ func runTimeouts(cfg Config) {
 // ---------------------------------------------------------------------------
 // C12: a compiled spec is shared immutable data; spec updates are atomic
 
+// specObjects renders the identities of the pattern objects of a compiled spec: a spec that is
+// shared is never written to, so they cannot change.
+func specObjects(s *core.Spec) string {
+	var sb strings.Builder
+	names := []string{}
+	for n := range s.Nodes {
+		names = append(names, n)
+	}
+	sort.Strings(names)
+	for _, n := range names {
+		node := s.Nodes[n]
+		if node == nil || node.Branches == nil {
+			continue
+		}
+		for i, b := range node.Branches.Branches {
+			if b == nil {
+				continue
+			}
+			switch reflect.ValueOf(b.Pattern).Kind() {
+			case reflect.Map, reflect.Slice:
+				fmt.Fprintf(&sb, "%s#%d:%x;", n, i, reflect.ValueOf(b.Pattern).Pointer())
+			}
+		}
+	}
+	return sb.String()
+}
+
 func runConcurrent(cfg Config) {
 	enc := json.NewEncoder(out)
 	g := gen.New(cfg.Seed)
@@ -378,6 +407,9 @@ func runConcurrent(cfg Config) {
 				return
 			}
 			ctl := &core.Control{Limit: l}
+			// taken before anything walks the spec
+			snap := specSnapshot(s1)
+			objs := specObjects(s1)
 			// distinct machine states over one spec object
 			states := []gen.StateD{}
 			for k := 0; k < 8; k++ {
@@ -396,7 +428,6 @@ func runConcurrent(cfg Config) {
 				alone1[k] = walkOn(s1, sd)
 				alone2[k] = walkOn(s2, sd)
 			}
-			snap := specSnapshot(s1)
 			var wg sync.WaitGroup
 			var mu sync.Mutex
 			same := true
@@ -448,6 +479,11 @@ func runConcurrent(cfg Config) {
 			wg.Wait()
 			close(stop)
 			probe["oneCompleteVersion"] = oneVersion
+			// nothing wrote to the spec while it was shared: same content, same objects
+			if specSnapshot(s1) != snap {
+				probe["specUntouched"] = false
+			}
+			probe["specObjectsKept"] = specObjects(s1) == objs
 		}()
 		enc.Encode(probeLine(i, map[string]interface{}{"spec": c1.Spec, "spec2": c2.Spec}, probe, []string{"walks24", "swap"}))
 	}
